@@ -324,9 +324,12 @@ fn gen_key(rng: &mut Rng, cfg: &GenCfg, counter: &mut usize) -> String {
     if cfg.sentinels {
         *counter += 1;
         // sentinel names, a quarter of them with characters that need JSON-pointer escaping
-        return match rng.below(8) {
+        return match rng.below(12) {
             0 => format!("KEY/*{}*", counter),
             1 => format!("KEY~*{}*", counter),
+            // a business claim that merely shares its name with a registered JWT / SD-JWT VC claim (its value is still
+            // a sentinel): an issuer that treats such names specially must not leave the claim in the clear
+            2 => rng.pick(&["status", "iss", "nbf", "vct", "sub", "aud", "iat", "jti"]).to_string(),
             _ => format!("KEY*{}*", counter),
         };
     }
